@@ -38,6 +38,7 @@ Proof. unfold ret. intros H. inversion H. auto. Qed.
 Ltac inv_bind H :=
   let a := fresh "a" in let s1 := fresh "s" in let H1 := fresh "Hm" in let H2 := fresh "Hk" in
   apply bind_ok in H as (a & s1 & H1 & H2).
+Ltac inv_bind_as H a s1 H1 H2 := apply bind_ok in H as (a & s1 & H1 & H2).
 
 (* ---------- genes of the children of a frame ---------- *)
 Definition kgenes (ks : list kid) : list string := flat_map (fun k => genes_of (snd k)) ks.
@@ -76,18 +77,286 @@ Proof.
   apply Permutation_flat_map. apply filter_partition_perm.
 Qed.
 
-(* lifting a list of copies keeps their genes *)
-Lemma lift_list_genes (step : hog -> M kid) :
-  (forall c s kd s', step c s = Ok (kd, s') -> genes_of (snd kd) = genes_of c) ->
-  forall l s rs s',
-  (fix go (l : list hog) : M (list kid) :=
-     match l with
-     | [] => ret []
-     | c :: r => bind (step c) (fun kd => bind (go r) (fun rs => ret (kd :: rs)))
-     end) l s = Ok (rs, s') -> kgenes rs = flat_map genes_of l.
+Lemma mapM_genes {X} (f : X -> M kid) (G : X -> list string) :
+  (forall c s kd s', f c s = Ok (kd, s') -> genes_of (snd kd) = G c) ->
+  forall l s rs s', mapM f l s = Ok (rs, s') -> kgenes rs = flat_map G l.
 Proof.
-  intros Hstep. induction l as [|c r IH]; intros s rs s' H.
+  intros Hf. induction l as [|c r IH]; intros s rs s' H.
   - apply ret_ok in H as [<- _]. reflexivity.
-  - inv_bind H. inv_bind Hk. apply ret_ok in Hk0 as [<- _].
-    unfold kgenes in *. simpl. rewrite (Hstep _ _ _ _ Hm). f_equal. eapply IH; eauto.
+  - cbn [mapM] in H. inv_bind H. inv_bind Hk. apply ret_ok in Hk0 as [<- _].
+    unfold kgenes in *. simpl. rewrite (Hf _ _ _ _ Hm). f_equal. eapply IH; eauto.
+Qed.
+
+Lemma lift_member_genes hid target k c s kd s' :
+  lift_member hid target k c s = Ok (kd, s') -> genes_of (snd kd) = genes_of c.
+Proof.
+  unfold lift_member. intros H. inv_bind H. inv_bind Hk. apply ret_ok in Hk0 as [<- _]. simpl.
+  eapply chain_genes; eauto.
+Qed.
+
+Lemma rehome_genes hid hoid lvl ks k s ks' s' :
+  rehome hid hoid lvl ks k s = Ok (ks', s') -> Permutation (kgenes ks') (kgenes ks).
+Proof.
+  unfold rehome. intros H. inv_bind H. destruct a as [a|]; [|discriminate].
+  rewrite (members_rest_perm k ks).
+  destruct (negb (taxon_eqb a lvl)).
+  - inv_bind_as Hk u1 t1 E1 K1. inv_bind_as K1 mo t2 E2 K2. inv_bind_as K2 u3 t3 E3 K3.
+    inv_bind_as K3 lifted t4 E4 K4. inv_bind_as K4 u5 t5 E5 K5. apply ret_ok in K5 as [<- _].
+    rewrite kgenes_app. apply Permutation_app_head. unfold kgenes at 1. simpl. rewrite app_nil_r.
+    fold (kgenes lifted). erewrite (mapM_genes _ genes_of); [apply Permutation_refl| |exact E4].
+    intros c s0' kd s0'' Hc. eapply lift_member_genes; eauto.
+  - inv_bind_as Hk u1 t1 E1 K1. inv_bind_as K1 lifted t2 E2 K2. apply ret_ok in K2 as [<- _].
+    rewrite kgenes_app. apply Permutation_app_head.
+    erewrite (mapM_genes _ genes_of); [apply Permutation_refl| |exact E2].
+    intros c s0' kd s0'' Hc. eapply lift_member_genes; eauto.
+Qed.
+
+Lemma foldM_rehome_genes hid hoid lvl keys : forall ks s ks' s',
+  foldM (rehome hid hoid lvl) keys ks s = Ok (ks', s') -> Permutation (kgenes ks') (kgenes ks).
+Proof.
+  induction keys as [|k r IH]; intros ks s ks' s' H.
+  - apply ret_ok in H as [<- _]. apply Permutation_refl.
+  - cbn [foldM] in H. inv_bind H. apply IH in Hk. apply rehome_genes in Hm. eapply Permutation_trans; eauto.
+Qed.
+
+Lemma lift_generic_genes hid lvl kd s kd' s' :
+  lift_generic hid lvl kd s = Ok (kd', s') -> genes_of (snd kd') = genes_of (snd kd).
+Proof.
+  unfold lift_generic. intros H. inv_bind H. destruct (path_up (htax (snd kd)) lvl) as [|tx r].
+  - apply ret_ok in Hk as [<- _]. reflexivity.
+  - inv_bind Hk. apply ret_ok in Hk0 as [<- _]. simpl. eapply chain_genes; eauto.
+Qed.
+
+Lemma generic_pass_genes hid lvl ks s ks' s' :
+  generic_pass hid lvl ks s = Ok (ks', s') -> Permutation (kgenes ks') (kgenes ks).
+Proof.
+  unfold generic_pass. intros H. inv_bind_as H lifted t1 E1 K1. apply ret_ok in K1 as [<- _].
+  assert (E : kgenes lifted = kgenes (filter (fun kd => negb (adjacent lvl kd)) ks)).
+  { eapply (mapM_genes _ (fun kd => genes_of (snd kd))); [|exact E1].
+    intros c s0 kd s0' Hc. eapply lift_generic_genes; eauto. }
+  rewrite kgenes_app, E.
+  eapply Permutation_trans; [apply Permutation_app_comm|]. apply Permutation_sym.
+  unfold kgenes. rewrite <- flat_map_app. apply Permutation_flat_map. apply filter_partition_perm.
+Qed.
+
+Lemma close_og_genes t top id og fr s c s' :
+  close_og t top id og fr s = Ok (c, s') ->
+  match c with
+  | Node h => Permutation (genes_of h) (kgenes (f_kids fr)) /\ f_kids fr <> []
+  | Collapsed ks => ks = f_kids fr /\ f_kids fr <> []
+  end.
+Proof.
+  unfold close_og. destruct (dedup_tax (map (fun kd => htax (snd kd)) (f_kids fr))) as [|x more] eqn:Ed; [discriminate|].
+  assert (Hne : f_kids fr <> []) by (intros E; rewrite E in Ed; discriminate).
+  match goal with |- context [if ?b then _ else _] => destruct b end.
+  - destruct top; [discriminate|]. intros H. apply ret_ok in H as [<- _]. auto.
+  - intros H. inv_bind_as H lvl0 t1 E1 K1. inv_bind_as K1 lvl t2 E2 K2. inv_bind_as K2 u3 t3 E3 K3.
+    inv_bind_as K3 o t4 E4 K4. inv_bind_as K4 u5 t5 E5 K5. inv_bind_as K5 ks1 t6 E6 K6. inv_bind_as K6 ks2 t7 E7 K7.
+    apply ret_ok in K7 as [<- _]. split; auto. cbn [genes_of]. fold (kgenes ks2).
+    apply generic_pass_genes in E7. apply foldM_rehome_genes in E6. eapply Permutation_trans; eauto.
+Qed.
+
+(* ---------- what one element adds to the open group ---------- *)
+Definition grows (fr fr' : frame) (new : list kid) : Prop :=
+  f_kids fr' = f_kids fr ++ new.
+
+Lemma find_gene_spec g genes :
+  (fix find (l : list (string * taxon)) : option taxon :=
+     match l with
+     | [] => None
+     | (g', p) :: r => if String.eqb g g' then Some p else find r
+     end) genes = None -> ~ In g (map fst genes).
+Proof.
+  induction genes as [|[g' p] r IH]; intros H Hin; [contradiction|]. simpl in *.
+  destruct (String.eqb g g') eqn:E; [discriminate|]. destruct Hin as [->|Hin]; [rewrite String.eqb_refl in E; discriminate|].
+  apply IH; auto.
+Qed.
+
+Lemma find_gene_in g genes p :
+  (fix find (l : list (string * taxon)) : option taxon :=
+     match l with
+     | [] => None
+     | (g', p) :: r => if String.eqb g g' then Some p else find r
+     end) genes = Some p -> In (g, p) genes.
+Proof.
+  induction genes as [|[g' p'] r IH]; intros H; [discriminate|]. simpl in *.
+  destruct (String.eqb g g') eqn:E.
+  - apply String.eqb_eq in E. inversion H. subst. left. reflexivity.
+  - right. apply IH. exact H.
+Qed.
+
+Lemma kgenes_reflag (pg : option nat) ks : kgenes (map (fun kd : kid => (pg, snd kd)) ks) = kgenes ks.
+Proof. unfold kgenes. induction ks as [|k r IH]; simpl; [reflexivity|]. now rewrite IH. Qed.
+
+(* does the element contribute a member to the innermost open orthologGroup? *)
+Fixpoint yields (it : item) : bool :=
+  match it with
+  | IGene _ _ => true
+  | IOG _ _ _ => true
+  | IPG _ body => existsb yields body
+  | _ => false
+  end.
+
+(* no orthologGroup anywhere inside is empty *)
+Fixpoint item_ok (it : item) : Prop :=
+  match it with
+  | IOG _ _ body => existsb yields body = true /\
+                    (fix all (l : list item) : Prop := match l with [] => True | x :: r => item_ok x /\ all r end) body
+  | IPG _ body => (fix all (l : list item) : Prop := match l with [] => True | x :: r => item_ok x /\ all r end) body
+  | _ => True
+  end.
+
+Lemma item_ok_all l :
+  (fix all (l : list item) : Prop := match l with [] => True | x :: r => item_ok x /\ all r end) l <-> Forall item_ok l.
+Proof.
+  induction l as [|x r IH].
+  - split; intros; [constructor|exact I].
+  - split.
+    + intros [H1 H2]. constructor; [exact H1|apply IH; exact H2].
+    + intros H. inversion H; subst. split; [assumption|apply IH; assumption].
+Qed.
+
+Definition item_spec (genes : list (string * taxon)) (refs : list string) (ok : Prop) (y : bool)
+  (fr fr' : frame) : Prop :=
+  exists new, grows fr fr' new /\ Permutation (kgenes new) refs /\
+              (forall g, In g refs -> In g (map fst genes)) /\ ok /\ (y = false -> new = []).
+
+Lemma body_spec t genes pg l : forall acc s0 acc' s0',
+  Forall (fun it => forall pg fr s fr' s', eval_item t genes it pg fr s = Ok (fr', s') ->
+                    item_spec genes (refs_of it) (item_ok it) (yields it) fr fr') l ->
+  (fix go (l : list item) (acc : frame) : M frame :=
+     match l with
+     | [] => ret acc
+     | x :: r => bind (eval_item t genes x pg acc) (fun acc' => go r acc')
+     end) l acc s0 = Ok (acc', s0') ->
+  item_spec genes (flat_map refs_of l) (Forall item_ok l) (existsb yields l) acc acc'.
+Proof.
+  induction l as [|x r IHr]; intros acc s0 acc' s0' HF Hgo.
+  - apply ret_ok in Hgo as [<- _]. exists []. unfold grows. rewrite app_nil_r. repeat split; auto. contradiction.
+  - inversion HF as [|? ? Hx Hr]; subst. inv_bind_as Hgo acc1 t1 E1 K1.
+    destruct (Hx _ _ _ _ _ E1) as (n1 & G1 & P1 & D1 & O1 & Y1).
+    destruct (IHr _ _ _ _ Hr K1) as (n2 & G2 & P2 & D2 & O2 & Y2).
+    exists (n1 ++ n2). unfold grows in *. split; [rewrite G2, G1, app_assoc; reflexivity|]. split; [|split; [|split]].
+    + rewrite kgenes_app. simpl. apply Permutation_app; auto.
+    + intros g Hg. simpl in Hg. apply in_app_or in Hg as [Hg|Hg]; auto.
+    + constructor; auto.
+    + simpl. intros Hy. apply orb_false_iff in Hy as [Hy1 Hy2]. rewrite (Y1 Hy1), (Y2 Hy2). reflexivity.
+Qed.
+
+(* the element-level invariant: children only grow, by a rearrangement of the referenced genes;
+   every referenced gene is declared; no nested orthologGroup is empty *)
+Lemma eval_item_spec t genes it : forall pg fr s fr' s',
+  eval_item t genes it pg fr s = Ok (fr', s') ->
+  item_spec genes (refs_of it) (item_ok it) (yields it) fr fr'.
+Proof.
+  induction it as [g l|id og body IH|og body IH|n v|n v] using item_ind'; intros pg fr s fr' s' H.
+  - (* geneRef *)
+    cbn [eval_item] in H.
+    match type of H with context [match ?f with _ => _ end] => destruct f as [p|] eqn:Ef end; [|discriminate].
+    inv_bind_as H u1 t1 E1 K1. apply ret_ok in K1 as [<- _]. exists [(pg, HGene g p)]. split; [reflexivity|].
+    split; [simpl; apply Permutation_refl|]. split; [|split; [exact I|discriminate]].
+    intros g' [<-|[]]. apply find_gene_in in Ef. apply in_map_iff. exists (g, p). auto.
+  - (* orthologGroup *)
+    cbn [eval_item] in H. inv_bind_as H inner t1 Einner K1. inv_bind_as K1 cl t2 Eclose K2.
+    destruct (body_spec t genes None body empty_frame s inner t1 IH Einner) as (n0 & G0 & P0 & D0 & O0 & Y0).
+    unfold grows in G0. simpl in G0.
+    apply close_og_genes in Eclose.
+    assert (Hok : item_ok (IOG id og body)).
+    { cbn [item_ok]. split; [|apply item_ok_all; exact O0].
+      destruct (existsb yields body) eqn:Ey; auto. exfalso.
+      assert (f_kids inner <> []) by (destruct cl; destruct Eclose; auto).
+      rewrite G0, (Y0 eq_refl) in H. auto. }
+    destruct cl as [ks|h].
+    + destruct Eclose as [-> _]. apply ret_ok in K2 as [<- _].
+      eexists. split; [reflexivity|]. split; [|split; [exact D0|split; [exact Hok|discriminate]]].
+      rewrite G0. destruct pg; [rewrite kgenes_reflag|]; exact P0.
+    + destruct Eclose as [Hp _]. apply ret_ok in K2 as [<- _].
+      exists [(pg, h)]. split; [reflexivity|]. split; [|split; [exact D0|split; [exact Hok|discriminate]]].
+      unfold kgenes at 1. simpl. rewrite app_nil_r. rewrite G0 in Hp. eapply Permutation_trans; eauto.
+  - (* paralogGroup *)
+    cbn [eval_item] in H. inv_bind_as H k t1 Ek K1. inv_bind_as K1 fr1 t2 Ebody K2. inv_bind_as K2 u3 t3 E3 K3.
+    apply ret_ok in K3 as [<- _].
+    destruct (body_spec t genes (Some k) body fr t1 fr1 t2 IH Ebody) as (n0 & G0 & P0 & D0 & O0 & Y0).
+    exists n0. split; auto. split; auto. split; auto. split; [apply item_ok_all; exact O0|exact Y0].
+  - cbn [eval_item] in H. apply ret_ok in H as [<- _]. exists []. unfold grows. simpl. rewrite app_nil_r.
+    repeat split; auto. contradiction.
+  - cbn [eval_item] in H. apply ret_ok in H as [<- _]. exists []. unfold grows. simpl. rewrite app_nil_r.
+    repeat split; auto. contradiction.
+Qed.
+
+(* ---------- top level ---------- *)
+Lemma eval_body_eq t genes body pg fr :
+  eval_body t genes body pg fr =
+  (fix go (l : list item) (acc : frame) : M frame :=
+     match l with
+     | [] => ret acc
+     | x :: r => bind (eval_item t genes x pg acc) (fun acc' => go r acc')
+     end) body fr.
+Proof. reflexivity. Qed.
+
+Lemma eval_top_spec t genes it s i h s' :
+  eval_top t genes it s = Ok ((i, h), s') ->
+  exists id og body, it = IOG id og body /\ i = (match id with Some x => Some x | None => og end) /\
+    Permutation (genes_of h) (refs_of it) /\ (forall g, In g (refs_of it) -> In g (map fst genes)) /\ item_ok it.
+Proof.
+  destruct it as [g l|id og body|og body|n v|n v]; try discriminate.
+  cbn [eval_top]. intros H. inv_bind_as H inner t1 Einner K1. inv_bind_as K1 cl t2 Eclose K2.
+  rewrite eval_body_eq in Einner.
+  assert (IH : Forall (fun it => forall pg fr s fr' s', eval_item t genes it pg fr s = Ok (fr', s') ->
+                          item_spec genes (refs_of it) (item_ok it) (yields it) fr fr') body).
+  { apply Forall_forall. intros x _. apply eval_item_spec. }
+  destruct (body_spec t genes None body empty_frame s inner t1 IH Einner) as (n0 & G0 & P0 & D0 & O0 & Y0).
+  unfold grows in G0. simpl in G0. apply close_og_genes in Eclose. rewrite G0 in Eclose.
+  destruct cl as [ks|h0]; [discriminate|]. apply ret_ok in K2 as [E _]. inversion E as [[Ei Eh]].
+  destruct Eclose as [Hp Hne]. exists id, og, body.
+  assert (Hy : existsb yields body = true).
+  { apply not_false_is_true. intros Ey. apply Hne. apply Y0. exact Ey. }
+  split; [reflexivity|]. split; [auto|]. split; [rewrite <- Eh; eapply Permutation_trans; eauto|].
+  split; [exact D0|]. cbn [item_ok]. split; [exact Hy|apply item_ok_all; exact O0].
+Qed.
+
+Lemma mapM_Forall2 {X Y} (f : X -> M Y) (R : X -> Y -> Prop) :
+  (forall x s y s', f x s = Ok (y, s') -> R x y) ->
+  forall l s ys s', mapM f l s = Ok (ys, s') -> Forall2 R l ys.
+Proof.
+  intros Hf. induction l as [|x r IH]; intros s ys s' H.
+  - apply ret_ok in H as [<- _]. constructor.
+  - cbn [mapM] in H. inv_bind_as H y t1 E1 K1. inv_bind_as K1 ys' t2 E2 K2. apply ret_ok in K2 as [<- _].
+    constructor; eauto.
+Qed.
+
+Lemma NavFacts_NoDup_snoc {X} (l : list X) x : NoDup l -> ~ In x l -> NoDup (l ++ [x]).
+Proof.
+  intros Hl Hx. induction Hl as [|y l Hy Hl IH]; simpl.
+  - constructor; auto. constructor.
+  - constructor.
+    + rewrite in_app_iff. intros [H|[H|[]]]; [contradiction|]. subst. apply Hx. left. reflexivity.
+    + apply IH. intros H. apply Hx. right. exact H.
+Qed.
+
+(* ---------- the species section ---------- *)
+Definition declared (d : doc) : list string := flat_map (fun sp => map gd_id (sp_genes sp)) (d_species d).
+
+Lemma load_species_spec t sp : forall genes s genes' s',
+  load_species t sp genes s = Ok (genes', s') ->
+  exists p, search t (sp_name sp) = [p] /\ is_leaf t p = true /\
+            genes' = genes ++ map (fun g => (gd_id g, p)) (sp_genes sp) /\
+            (NoDup (map fst genes) -> NoDup (map fst genes')).
+Proof.
+  intros genes s genes' s' H. unfold load_species in H.
+  destruct (search t (sp_name sp)) as [|p [|q r]] eqn:Es; try discriminate.
+  destruct (is_leaf t p) eqn:El; simpl in H; [|discriminate].
+  inv_bind_as H u1 t1 E1 K1. exists p. split; auto. split; auto.
+  clear E1 Es El. revert genes t1 genes' s' K1. induction (sp_genes sp) as [|g r IH]; intros genes t1 genes' s' K1.
+  - apply ret_ok in K1 as [<- _]. simpl. rewrite app_nil_r. auto.
+  - cbn [foldM] in K1. inv_bind_as K1 acc1 t2 E2 K2.
+    destruct (existsb (fun x => String.eqb (gd_id g) (fst x)) genes) eqn:Ee; [discriminate|].
+    inv_bind_as E2 u3 t3 E3 K3. apply ret_ok in K3 as [<- _].
+    destruct (IH _ _ _ _ K2) as [Hg Hn]. split.
+    + rewrite Hg, <- app_assoc. reflexivity.
+    + intros Hnd. apply Hn. rewrite map_app. simpl. apply NavFacts_NoDup_snoc; auto.
+      intros Hin. apply in_map_iff in Hin as (x & Ex & Hx).
+      assert (existsb (fun x => String.eqb (gd_id g) (fst x)) genes = true).
+      { apply existsb_exists. exists x. split; auto. rewrite Ex. apply String.eqb_refl. }
+      congruence.
 Qed.
